@@ -27,6 +27,7 @@ type Damage struct {
 	Bit  int    `json:"bit,omitempty"`
 	Val  uint64 `json:"val,omitempty"`
 	Wide bool   `json:"wide,omitempty"` // 64-bit field (wire point-list count)
+	Also []Damage `json:"also,omitempty"` // further fields set together with this one
 }
 
 func (d Damage) String() string {
@@ -36,10 +37,14 @@ func (d Damage) String() string {
 	case "flip":
 		return fmt.Sprintf("bit %d of byte %d flipped", d.Bit, d.At)
 	case "field":
-		if d.Wide {
-			return fmt.Sprintf("64-bit field at offset %d set to %#x", d.At, d.Val)
+		extra := ""
+		for _, a := range d.Also {
+			extra += fmt.Sprintf(" and the one at offset %d to %#x", a.At, a.Val)
 		}
-		return fmt.Sprintf("32-bit field at offset %d set to %#x", d.At, d.Val)
+		if d.Wide {
+			return fmt.Sprintf("64-bit field at offset %d set to %#x%s", d.At, d.Val, extra)
+		}
+		return fmt.Sprintf("32-bit field at offset %d set to %#x%s", d.At, d.Val, extra)
 	case "extend":
 		return fmt.Sprintf("extended by %d bytes", d.At)
 	case "zero":
@@ -97,7 +102,7 @@ func (c15Sim) Gen(prop, tier string, r *rand.Rand) interface{} {
 	return c
 }
 
-var boundary32 = []uint64{0, 1, 2, 0x7fffffff, 0x80000000, 0xffffffff, 0x15555556, 0x0aaaaaab, 0x15555555, 0x10000000, 0xfffffff4, 1000000, 0x04000000}
+var boundary32 = []uint64{0, 1, 2, 0x40000000, 0x3fffffff, 0x20000000, 60, 0x7fffffff, 0x80000000, 0xffffffff, 0x15555556, 0x0aaaaaab, 0x15555555, 0x10000000, 0xfffffff4, 1000000, 0x04000000}
 var boundary64 = []uint64{0, 1, 0x7fffffff, 0x80000000, 0xffffffff, 0x100000000, 1 << 62, 1 << 63, math.MaxUint64, 0x1555555555555556, 0x0aaaaaaaaaaaaaab}
 
 // damages enumerates the damages applied to an object of the given size whose
@@ -157,6 +162,11 @@ func applyDamage(b []byte, d Damage) []byte {
 			}
 		} else if d.At >= 0 && d.At+4 <= int64(len(out)) {
 			binary.BigEndian.PutUint32(out[d.At:], uint32(d.Val))
+		}
+		for _, a := range d.Also {
+			if a.At >= 0 && a.At+4 <= int64(len(out)) {
+				binary.BigEndian.PutUint32(out[a.At:], uint32(a.Val))
+			}
 		}
 	case "extend":
 		if d.At > 0 && d.At <= 1<<20 {
@@ -244,6 +254,7 @@ func c15Stored(e *Env, c *C15Case, base []byte) {
 	r := newRng(c.DSeed)
 	hdr := int64(16 + 12*len(c.Layout.Archs))
 	list := damages(r, int64(len(base)), hdr, nil)
+	list = append(list, retentionWrapDamages(c.Layout)...)
 	if c.Only != nil {
 		list = []Damage{*c.Only}
 	}
@@ -485,4 +496,35 @@ func c15Wire(e *Env, c *C15Case) {
 			}
 		}
 	}
+}
+
+// retentionWrapDamages: for every archive, the step is set so that
+// step x points no longer fits the format's signed 32-bit durations (2^31 and
+// just below), together with a base interval that is a multiple of that step -
+// a header that is well-formed field by field and a slot that looks written.
+func retentionWrapDamages(l Layout) []Damage {
+	var out []Damage
+	off := int64(16 + 12*len(l.Archs))
+	for k, a := range l.Archs {
+		stepOff := int64(16 + 12*k + 4)
+		for _, total := range []int64{1 << 31, 1<<31 - 1, 1 << 32, 3 << 30} {
+			step := (total + a.N - 1) / a.N
+			if step <= 0 || step > 0x7fffffff {
+				continue
+			}
+			for _, base := range []int64{step, 2 * step, 0} {
+				if base > 0xffffffff {
+					continue
+				}
+				d := Damage{Kind: "field", At: stepOff, Val: uint64(step), Also: []Damage{{Kind: "field", At: off, Val: uint64(base)}}}
+				if k == len(l.Archs)-1 {
+					// keep maxRetention consistent with the last archive
+					d.Also = append(d.Also, Damage{Kind: "field", At: 4, Val: uint64(uint32(step * a.N))})
+				}
+				out = append(out, d)
+			}
+		}
+		off += 12 * a.N
+	}
+	return out
 }
